@@ -160,3 +160,56 @@ Example C12_demo_ok : Forall decl_ok c12_demo.
 Proof.
   repeat constructor; cbn; repeat split; try reflexivity; try discriminate; repeat constructor; try reflexivity; try discriminate.
 Qed.
+
+(* ---------- the text level (TextProofs, TextTie) ----------
+   reads_as ds text (a boolean: the lexer layb run on the token stream of ds, and the lexical
+   side conditions) says that `text` is the declaration list ds laid out with gaps between its
+   tokens: blanks, tabs, newlines, carriage returns, /* long */ and // short comments, in any
+   number.  For EVERY such text -- no bound on the number or size of the declarations or of the
+   gaps -- the PEG of the regenerated grammar accepts the whole text and yields a tree that
+   erases to tree_of ds (parse_layout, by induction over the declaration list against the PEG
+   interpreter), hence the Ast is the Ast of the items ds declares. *)
+From XdrProofs Require Import TextTie.
+From XdrModel Require Import Check.
+
+Theorem C12_text_to_tree :
+  forall ds text, reads_as ds text = true ->
+  exists t, (exists fuel, parse xdr_grammar fuel text = POk [t] "") /\ erase t = tree_of ds.
+Proof. exact text_to_tree. Qed.
+Print Assumptions C12_text_to_tree.
+
+Theorem C12_text_to_ast :
+  forall ds text items,
+  reads_as ds text = true -> forallb decl_okb ds = true -> emapM item_of ds = EOk items ->
+  exists t, (exists fuel, parse xdr_grammar fuel text = POk [t] "") /\
+            ast_new t = ast_of_root (NRoot (items ++ [NEOF])).
+Proof. exact text_to_ast. Qed.
+Print Assumptions C12_text_to_ast.
+
+(* non-vacuity: a text with every declaration kind, every array form, an optional field, a
+   fall-through chain, a default and a void arm, in an irregular layout *)
+Definition c12_text_demo : list sdecl :=
+  [KConst "MAX" "8";
+   KEnum "color" [("RED", "0"); ("BLUE", "0x10")];
+   KTypedef (TTBasic ("opaque" ++ " ")) "blob" (SVar (Some (BConst "MAX")));
+   KStruct "pt" [{| f_ty := TTBasic ("unsigned   int" ++ String (Ascii.ascii_of_nat 10) " "); f_name := "x"; f_arr := SFixed (BVal "3"); f_opt := false |};
+                 {| f_ty := TTIdent "pt"; f_name := "next"; f_arr := SNone; f_opt := true |};
+                 {| f_ty := TTIdent "blob"; f_name := "b"; f_arr := SVar None; f_opt := false |}];
+   KUnion "u" (TTIdent "color") "c"
+     [{| g_labels := [BConst "RED"; BVal "7"]; g_default := false; g_arm := ArmData (TTIdent "pt") "p" |};
+      {| g_labels := [BConst "BLUE"]; g_default := true; g_arm := ArmData (TTBasic ("hyper" ++ " ")) "h" |};
+      {| g_labels := [BVal "9"]; g_default := false; g_arm := ArmVoid |}]].
+
+Definition nl : string := String (Ascii.ascii_of_nat 10) "".
+Definition c12_text : string :=
+  (nl ++ "/* a ** comment */const/**/MAX=8;// to the end of the line" ++ nl ++ "enum color{RED=0,BLUE = 0x10} ;typedef opaque blob</*bound*/MAX>;" ++ nl ++
+   "struct pt { unsigned   int" ++ nl ++ " x[3]; pt *next; blob b<>; };" ++ nl ++
+   "union u switch(color c){case RED:case 7 : pt p;case BLUE: default: hyper /* after a basic type */h; case 9:void;};// no newline")%string.
+
+Example C12_text_nonvacuous :
+  (reads_as c12_text_demo c12_text && forallb decl_okb c12_text_demo)%bool = true /\
+  match parse xdr_grammar (parse_fuel c12_text) c12_text with
+  | POk [t] "" => tree_eqb (erase t) (tree_of c12_text_demo)
+  | _ => false
+  end = true.
+Proof. split; vm_compute; reflexivity. Qed.
